@@ -399,7 +399,7 @@ def run_check(pid: str, tier: str, seed: int, n_override=None, workers=None, bud
         f"{pid} {tier} seed={seed}: {evals} runs ({len(traces)} distinct non-trivial traces) in {wall:.1f}s, "
         f"{sum(faults.values())} faults fired of {len(faults)} kinds, known-finding hits {dict(kf_hits)}, violations {len(violations_out)}"
     )
-    if missing:
+    if missing and rc == 0:
         print(f"HARNESS-ERROR vacuous: required probes never fired: {missing}")
         return 2
     return rc
